@@ -98,8 +98,32 @@ class ModuleInfo:
           s._index(getattr(n,fld,[]) or [],prefix)
         for h in getattr(n,'handlers',[]) or []: s._index(h.body,prefix)
   def function(s,qual):
-    if qual not in s.functions: raise ToolError(f"cannot extract {s.rel}::{qual}: function not found")
+    if qual not in s.functions:
+      f=s._dict_entry(qual)
+      if f is not None: s.functions[qual]=f
+      else: raise ToolError(f"cannot extract {s.rel}::{qual}: function not found")
     return s.functions[qual]
+  def _dict_entry(s,qual):
+    """'TABLE.KEY': the function stored under KEY in the module-level dict literal TABLE (a lambda is extracted as
+    `def KEY(args): return <body>`, a bare name f as `def KEY(*a): return f(*a)` with the table's arity)."""
+    if '.' not in qual: return None
+    tab,key=qual.split('.',1)
+    for n in s.tree.body:
+      if isinstance(n,ast.Assign) and len(n.targets)==1 and isinstance(n.targets[0],ast.Name) and n.targets[0].id==tab and isinstance(n.value,ast.Dict):
+        arity=None
+        for k,v in zip(n.value.keys,n.value.values):
+          if isinstance(v,ast.Lambda): arity=[a.arg for a in v.args.args]
+        for k,v in zip(n.value.keys,n.value.values):
+          kn=k.attr if isinstance(k,ast.Attribute) else k.id if isinstance(k,ast.Name) else str(getattr(k,'value',None))
+          if kn!=key: continue
+          if isinstance(v,ast.Lambda):
+            f=ast.FunctionDef(name=key,args=v.args,body=[ast.Return(v.body)],decorator_list=[],returns=None,type_comment=None,type_params=[])
+          elif isinstance(v,ast.Name) and arity:
+            f=ast.FunctionDef(name=key,args=ast.arguments(posonlyargs=[],args=[ast.arg(a) for a in arity],kwonlyargs=[],kw_defaults=[],defaults=[]),
+                              body=[ast.Return(ast.Call(ast.Name(v.id,ast.Load()),[ast.Name(a,ast.Load()) for a in arity],[]))],decorator_list=[],returns=None,type_comment=None,type_params=[])
+          else: return None
+          ast.copy_location(f,v); ast.fix_missing_locations(f); return f
+    return None
   def ast_hash(s,qual):
     return fn_hash(s.function(qual))
   def lines(s,qual):
